@@ -53,11 +53,10 @@ Definition wh_buffer (key : bytes) (values : list bytes) : bytes :=
   drop_sp_before_crlf (wh_words (key ++ bs ": ") cl words).
 
 (* writeHeader: returns the bytes handed to writeString (two calls: the buffer, then CRLF) and
-   the line count.  With no values nothing is written and 1 is returned (the ":\r\n" goes to
-   a dropped builder). *)
+   the line count.  With no values nothing is written and 0 is returned. *)
 Definition write_header (key : bytes) (values : list bytes) : bytes * nat :=
   match values with
-  | [] => ([], 1%nat)
+  | [] => ([], 0%nat)
   | _ => let s := wh_buffer key values in (s ++ crlf, S (count_crlf s))
   end.
 
